@@ -16,7 +16,9 @@ RULE = ("streams of calls (motif name, graph, root, substitution for phi and for
         "integer constant (passed as Poly, int or float); quick: every labelled graph on <= 4 vertices x every root "
         "(connected or not, isolated vertices included) + a seeded sample of 5-vertex graphs + random connected graphs "
         "with 6-7 arbitrarily labelled vertices and <= 11 edges; thorough: every graph on <= 5 vertices x every root; "
-        "same-named motif re-evaluated with other roots / phi / u later in the stream; a malformed stream (root not in "
+        "same-named motif re-evaluated with other roots / phi / u later in the stream, in half of the streams on the SAME "
+        "networkx object with only the u attributes re-installed; graphs carry node / edge / graph attributes and are "
+        "compared before/after every call (data and iteration order); a malformed stream (root not in "
         "the motif). Non-trivial = the call's motif contains a cycle and the polynomial has >= 6 monomials; distinct "
         "by (nodes, edges, root, substitution)")
 EXHAUSTIVE = {"quick": True, "thorough": True}
@@ -128,7 +130,7 @@ def _stream(rng, graphs, all_roots=True, extra_subs=1, bad_roots=False):
         if bad_roots:
             calls.append(_call(name, nodes, edges, max(nodes) + 1 + rng.randint(0, 2), _ident_sub(nodes)))
     rng.shuffle(calls)
-    return {"calls": calls}
+    return {"calls": calls, "reuse": rng.random() < 0.5}
 
 
 def _rand_connected(rng, n, max_edges, labels):
@@ -169,7 +171,8 @@ def corpus():
     for name, (nodes, edges) in enumerate([DIAMOND, K4, C5, BOWTIE]):
         calls.append(_call(name, nodes, edges, nodes[1], {"phi": [0, 2, 1], "u": [[nodes[0], [0, 3, 2]]]}))
         calls.append(_call(name, nodes, edges, nodes[2], {"phi": [1, 1, 0], "u": [[v, [1, nodes[0] + 2, 0]] for v in nodes]}))
-    out.append({"calls": calls})
+    out.append({"calls": calls, "reuse": True})
+    out.append({"calls": calls, "reuse": False})
     out.append({"calls": [_call(0, *HOUSE, r, _ident_sub(HOUSE[0])) for r in HOUSE[0]]})
     # two different motifs on the same vertex labels, alternating (cache keys must contain the name)
     tri_tail = ([0, 1, 2, 3], [[0, 1], [1, 2], [0, 2], [2, 3]])
@@ -245,19 +248,34 @@ def _u_sub(call, v):
     return [1, v + 2, 0]
 
 
+def _snapshot(G):
+    """deep copy of everything a caller can see of the graph, iteration order included"""
+    return ([(n, sorted(d.items(), key=lambda kv: kv[0])) for n, d in G.nodes(data=True)],
+            [(a, b, sorted(d.items(), key=lambda kv: kv[0])) for a, b, d in G.edges(data=True)],
+            sorted(G.graph.items()), [(n, list(G.adj[n])) for n in G.nodes()])
+
+
 def impl(case):
     import networkx as nx
     from gcmpy.message_passing.equations.automated_equation import AutomatedEquation
     ae = AutomatedEquation()
     obs = []
+    graphs = {}
     for call in case["calls"]:
         name = f"motif{call['name']}"
-        G = nx.Graph(name=name)
-        G.add_nodes_from(call["nodes"])
-        G.add_edges_from([tuple(e) for e in call["edges"]])
+        if case.get("reuse") and name in graphs:
+            # the SAME graph object again: the caller only re-installs the u values (as MessagePassing-like drivers do)
+            G = graphs[name]
+        else:
+            G = nx.Graph(name=name, note=f"n{call['name']}")
+            G.add_nodes_from(call["nodes"])
+            for k, e in enumerate(call["edges"]):
+                G.add_edge(e[0], e[1], w=k, tag=f"e{k}")
+            nx.set_node_attributes(G, {v: f"v{v}" for v in call["nodes"]}, "lab")
+            graphs[name] = G
         # u installed on EVERY vertex, the root included (its value must not be used)
         nx.set_node_attributes(G, {v: _mk_arg(_u_sub(call, v)) for v in call["nodes"]}, "u")
-        before = (sorted(G.nodes()), sorted(tuple(sorted(e)) for e in G.edges()))
+        before = _snapshot(G)
         try:
             r = ae.automated_equation(G, _mk_arg(call["phi"]), call["root"])
         except Exception as e:  # noqa: BLE001
@@ -267,18 +285,18 @@ def impl(case):
         if p is None:
             obs.append(["!type", type(r).__name__])
             continue
-        after = (sorted(G.nodes()), sorted(tuple(sorted(e)) for e in G.edges()))
+        after = _snapshot(G)
         comps = ae._connected_subgraphs.get(f"{call['root']}-{name}")
         comps_c = sorted(sorted(c) for c in comps) if comps is not None else None
         combos = {}
         for key, val in ae._edge_combinations.items():
-            if not key.endswith("-" + name):
+            if not isinstance(key, str) or not key.endswith("-" + name):
                 continue
             try:
                 c = ast.literal_eval(key[: -len("-" + name)])
+                combos.setdefault(tuple(sorted(c)), []).append(list(val))
             except Exception:  # noqa: BLE001
                 continue
-            combos.setdefault(tuple(sorted(c)), []).append(list(val))
         combos_c = sorted([list(k), v] for k, v in combos.items())
         obs.append([0, p.to_wire(), comps_c, combos_c, len(ae._connected_subgraphs), int(before == after)])
     return obs
@@ -416,6 +434,11 @@ def nontrivial_key(case, impl_obs):
 
 
 def shrink(case):
+    for c in _shrink(case):
+        yield dict(c, reuse=case.get("reuse", False))
+
+
+def _shrink(case):
     calls = case["calls"]
     for i in range(len(calls)):
         yield {"calls": calls[:i] + calls[i + 1:]}
